@@ -145,9 +145,10 @@ def PType.dataStart (t : PType) : Nat := if t.isConfirmed then 16 else 0
 /-- data ends before the 32-bit CRC in last blocks -/
 def dataEnd (r : Rate) (t : PType) : Nat := if t.isLast then r.infoBits - 32 else r.infoBits
 
+/-- the slice of the information bits that becomes `block.data` -/
+def dataBits (r : Rate) (t : PType) (bits : Bits) : Bits := (bits.take (dataEnd r t)).drop t.dataStart
 /-- `block.data` -/
-def blockData (r : Rate) (t : PType) (bits : Bits) : Bytes :=
-  bitsToBytes ((bits.take (dataEnd r t)).drop t.dataStart)
+def blockData (r : Rate) (t : PType) (bits : Bits) : Bytes := bitsToBytes (dataBits r t bits)
 /-- `block.dbsn` (0 when not confirmed: constructor default) -/
 def blockDbsn (t : PType) (bits : Bits) : Nat := if t.isConfirmed then bitsToNat (bits.take 7) else 0
 /-- the received CRC-9 field `ba2int(crc9[::-1])` (0 when not confirmed) -/
